@@ -89,6 +89,9 @@ func runC03(env *Env) {
 	r := env.Rng
 	modes := []string{"S", "K", "D"}
 	emit := func(mode string, class string, pkts ...string) {
+		if pool.Tripped() {
+			return
+		}
 		c := mode + " " + strings.Join(pkts, " ")
 		env.Count(class)
 		env.Emit("C03 "+c, pool.Run("C03 "+c))
